@@ -141,6 +141,7 @@ def run(repo, res):
 
     # ---- R4 predecessor union is total ---------------------------------------------------
     M.check_union(repo, res, 'C02-R4')
+    M.check_merged_dict(repo, res, 'C02-R4')
     res.assumptions.extend([
         'reference CFG templates (sa/pyref.py T3) restricted to the C02 domain: loops left by exhaustion, '
         'exceptions only at the first/last statement of a try body and always caught',
